@@ -68,6 +68,8 @@ type ioState struct {
 	nondetN  int
 	created  []string
 	allocLim *smt.Term
+	log      []libCall
+	layer    string
 }
 
 func (ex *Exec) io() *ioState {
@@ -512,8 +514,8 @@ func init() {
 				f.lnRead++
 				return true
 			}
-			if !f.arb {
-				panic(Unsupported{"vfs: scanning a binary-written file"})
+			if !f.arb && f.maxLn == 0 {
+				f.maxLn = 2 // a binary file read as text: up to two arbitrary lines
 			}
 			if f.lnRead >= f.maxLn {
 				s.done = true
@@ -539,7 +541,7 @@ func init() {
 		"(*bufio.Scanner).Err": func(fr *frame, args []value) value {
 			ex := fr.i.ex
 			s := ex.io().byPtr[args[0].(*value)].(*vscan)
-			if s.f.arb && s.f.lines == nil {
+			if s.f.lines == nil {
 				e := ex.Input("file.scan_error", smt.Bool)
 				if ex.branch(e) {
 					return ioErr(fr, "bufio.Scanner: token too long")
@@ -602,6 +604,7 @@ func init() {
 		return tuple{path, sym{f.size, types.Int}}
 	}
 	intrinsics["vfTempPath"] = func(fr *frame, args []value) value { return args[0] }
+	intrinsics["vfOutPath"] = func(fr *frame, args []value) value { return args[0] }
 	intrinsics["vfFaults"] = func(fr *frame, args []value) value {
 		fr.i.ex.impure("vfFaults")
 		fr.i.ex.io().faults = args[0].(bool)
